@@ -13,7 +13,7 @@ import (
 //   time.Time -> Int (clock reading, ns), sync/atomic cells -> their payload
 //   slices -> Slice datatype, structs -> per-type datatype, arrays -> (Array Int T)
 
-const slicePrelude = `(declare-sort Str 0)
+const slicePreludeDecl = `(declare-sort Str 0)
 (declare-sort BSeq 0)
 (declare-datatypes ((Slice 0)) (((mk_slice (s_arr Int) (s_off Int) (s_len Int) (s_cap Int)))))
 (declare-fun strlen (Str) Int)
@@ -35,16 +35,12 @@ const slicePrelude = `(declare-sort Str 0)
 (declare-fun uf_shr (Int Int) Int)
 (declare-fun uf_rem (Int Int) Int)
 (declare-fun at (Int Int) Int)
-(declare-fun sumlens ((Array Int Slice) Int Int) Int)
-(assert (forall ((a (Array Int Slice)) (o Int)) (! (= (sumlens a o 0) 0) :pattern ((sumlens a o 0)))))
-(assert (forall ((a (Array Int Slice)) (o Int) (k Int)) (! (=> (>= k 0) (= (sumlens a o (+ k 1)) (+ (sumlens a o k) (ite (>= (s_len (select a (at o k))) 0) (s_len (select a (at o k))) 0)))) :pattern ((sumlens a o k) (select a (at o k))))))
-(assert (forall ((a (Array Int Slice)) (o Int) (k Int)) (! (=> (>= k 0) (>= (sumlens a o k) 0)) :pattern ((sumlens a o k)))))
-(assert (forall ((a (Array Int Slice)) (b (Array Int Slice)) (o Int) (p Int) (k Int)) (! (=> (forall ((j Int)) (=> (and (<= 0 j) (< j k)) (= (s_len (select a (at o j))) (s_len (select b (at p j)))))) (= (sumlens a o k) (sumlens b p k))) :pattern ((sumlens a o k) (sumlens b p k)))))
-(assert (forall ((a (Array Int Slice)) (i Int) (v Slice) (o Int) (k Int)) (! (=> (or (< i o) (>= i (+ o k))) (= (sumlens (store a i v) o k) (sumlens a o k))) :pattern ((sumlens (store a i v) o k)))))
-(assert (forall ((a (Array Int Slice)) (o Int) (k Int) (i Int)) (! (=> (and (<= 0 i) (< i k)) (<= (s_len (select a (at o i))) (sumlens a o k))) :pattern ((sumlens a o k) (select a (at o i))))))
-(assert (forall ((a (Array Int Slice)) (o Int) (n Int) (p Int) (k Int)) (! (=> (and (<= o p) (>= k 0) (= (+ (- p o) k) n)) (= (sumlens a o n) (+ (sumlens a o (- p o)) (sumlens a p k)))) :pattern ((sumlens a o n) (sumlens a p k)))))
 (assert (forall ((o Int) (i Int)) (! (= (at o i) (+ o i)) :pattern ((at o i)))))
 `
+
+// slicePrelude: declarations, the definition of sumlens, and the lemmas about it (prelude_lemmas.go; the lemmas are
+// proved by induction from the definition on every run of a property that uses sumlens).
+var slicePrelude = slicePreludeDecl + sumlensPrelude()
 
 func isNamed(t types.Type, pkg, name string) bool {
 	n, ok := types.Unalias(t).(*types.Named)
